@@ -260,28 +260,31 @@ hstubs! { #[kani::unwind(4)] fn c14_set_vring_num_base() {
     }
     core::mem::forget(h); core::mem::forget(kb);
 }}
-hstubs! { #[kani::unwind(4)] fn c14_per_ring_index_range() {
-    let kb = Arc::new(KB::new(1, 256, u64::MAX, vec![1]));
-    let mut h = mk_handler(kb.clone(), 1);
-    h.acked_features = 1 << 30;
-    h.mappings.push(AddrMapping { vmm_addr: 0x1000, size: 0x1000, gpa_base: 0x1000 });
-    let idx: u32 = kani::any();
-    kani::assume(idx >= 1);
-    let which: u8 = kani::any();
-    let bad = match which {
-        0 => h.set_vring_num(idx, 1).is_err(),
-        1 => true,   // set_vring_addr: index check verified in the Verus unit `misc`
-        2 => h.set_vring_base(idx, 0).is_err(),
-        3 => h.get_vring_base(idx).is_err(),
-        4 => h.set_vring_enable(idx, true).is_err(),
-        5 => { kani::assume(idx < 256); h.set_vring_kick(idx as u8, None).is_err() }
-        6 => { kani::assume(idx < 256); h.set_vring_call(idx as u8, None).is_err() }
-        _ => { kani::assume(idx < 256); h.set_vring_err(idx as u8, None).is_err() }
+// an out-of-range ring index is rejected by every per-ring message, with no effect (set_vring_addr: Verus unit `misc`)
+macro_rules! index_range {
+    ($name:ident, |$h:ident, $idx:ident| $call:expr) => {
+        hstubs! { #[kani::unwind(4)] fn $name() {
+            let kb = Arc::new(KB::new(1, 256, u64::MAX, vec![1]));
+            let mut $h = mk_handler(kb.clone(), 1);
+            $h.acked_features = 1 << 30;
+            let $idx: u32 = kani::any();
+            kani::assume($idx >= 1 && $idx < 256);
+            unsafe { REG = [false; NFD]; CTL_CALLS = 0; }
+            let bad: bool = $call;
+            assert!(bad);
+            assert!(reg_count() == 0 && unsafe { CTL_CALLS } == 0);
+            assert!(!$h.vrings[0].enabled() && !$h.vrings[0].ready() && $h.vrings[0].kick_fd().is_none());
+            core::mem::forget($h); core::mem::forget(kb);
+        }}
     };
-    assert!(bad);
-    assert!(reg_count() == 0 && unsafe { CTL_CALLS } == 0);
-    core::mem::forget(h); core::mem::forget(kb);
-}}
+}
+index_range!(c14_index_range_num, |h, idx| h.set_vring_num(idx, 1).is_err());
+index_range!(c14_index_range_base, |h, idx| h.set_vring_base(idx, 0).is_err());
+index_range!(c14_index_range_get_base, |h, idx| h.get_vring_base(idx).is_err());
+index_range!(c14_index_range_enable, |h, idx| h.set_vring_enable(idx, true).is_err());
+index_range!(c14_index_range_kick, |h, idx| h.set_vring_kick(idx as u8, None).is_err());
+index_range!(c14_index_range_call, |h, idx| h.set_vring_call(idx as u8, None).is_err());
+index_range!(c14_index_range_err, |h, idx| h.set_vring_err(idx as u8, None).is_err());
 
 pub(crate) static mut USED_IDX: u16 = 0;
 pub(crate) static mut USED_IDX_FAIL: bool = false;
